@@ -61,6 +61,22 @@ def build(reg):
     l0.modifies = l0.modifies + ['bu_none']
     l0.inv = l0.inv + ['not bu_none']
     l1.inv = l1.inv + ['bu_none ==> connects == old(connects)']
+    # the same for the handle_client_request chains (first request: loop 1 of on_request_complete; follow-ups:
+    # on_client_data): ghost hc_none, no hook after one returned None, and then nothing is forwarded
+    hc.ghost_init = dict(hc.ghost_init, hc_none='bool')
+    hc.requires = hc.requires + [('no-hook-after-one-returned-none', 'not hc_none')]
+    hc.ensures = hc.ensures + [('none-seen', 'hc_none == isnone(result)')]
+    orc.ghost_init = dict(orc.ghost_init, hc_none='bool')
+    orc.requires = orc.requires + [('fresh-client-request-chain', 'not hc_none')]
+    orc.ensures = orc.ensures + [('none-ends-the-client-request-chain-and-forwards-nothing',
+                                  'hc_none ==> (isnone(self.upstream) or len(self.upstream.buffer) == 0)')]
+    l0.inv = l0.inv + ['not hc_none']
+    l1.modifies = l1.modifies + ['hc_none']
+    l1.inv = l1.inv + ['not hc_none']
+    for ocd in T:
+        if ocd.qualname == 'HttpProxyPlugin.on_client_data':
+            ocd.ghost_init = dict(ocd.ghost_init, hc_none='bool')
+            ocd.requires = ocd.requires + [('fresh-client-request-chain', 'not hc_none')]
     orc.raises = {'Exception': orc.raises['Exception'] + [
         ('rejection-ends-the-chain', '(bu_raised and not old(bu_raised)) ==> hc_log == old(hc_log)')]}
     # lifecycle: the protocol handler's shutdown (C10's contract, re-proved here)
